@@ -46,6 +46,7 @@ type RunConfig struct {
 	Wire          bool    `json:"wire,omitempty"`
 	StarveOnly    bool    `json:"starve_only,omitempty"`
 	StaleForger   bool    `json:"stale_forger,omitempty"`
+	EventClock    bool    `json:"event_clock,omitempty"`
 	// persistent nodes may run with a backlog of undetermined events larger than their cache
 	BacklogOverCache bool    `json:"backlog_over_cache,omitempty"`
 	NilTx            bool    `json:"nil_tx"`
@@ -92,6 +93,7 @@ func baseConfig(profile string, r *RNG, thorough bool) *RunConfig {
 	}
 	cfg.PSubmit = 0.15 + 0.2*r.Float()
 	cfg.PAdvance = 0.02
+	cfg.EventClock = r.Bool(0.5)
 	// about a quarter of the runs are fault-free
 	if !r.Bool(0.25) {
 		cfg.PDropReq = 0.08 * r.Float()
@@ -251,6 +253,42 @@ func (c *Cluster) genStep(g *genState) *Step {
 				return &Step{Op: "tick", A: a.idx, B: b.idx}
 			}
 			g.burstLeft = 0
+		}
+	}
+	if cfg.Straggler > 0 && len(alive) >= 3 && r.Bool(0.5) {
+		// directed: a node holds a round that is decided but waits behind an
+		// earlier open round, and somebody else knows a witness of that round it
+		// has not seen yet (a straggler's): let it pull that witness now
+		for _, a := range alive {
+			if a.state() != _state.Babbling {
+				continue
+			}
+			ha := a.core().Hashgraph()
+			open := false
+			for _, p := range ha.PendingRounds.GetOrderedPendingRounds() {
+				if !p.Decided {
+					open = true
+					continue
+				}
+				if !open {
+					continue
+				}
+				mine := map[string]bool{}
+				for _, w := range ha.Store.RoundWitnesses(p.Index) {
+					mine[w] = true
+				}
+				for _, b := range alive {
+					if b == a || b.state() != _state.Babbling || findPeer(a, b) == nil {
+						continue
+					}
+					for _, w := range b.core().Hashgraph().Store.RoundWitnesses(p.Index) {
+						if !mine[w] {
+							c.stats.probe("directed-late-witness-pull")
+							return &Step{Op: "tick", A: a.idx, B: b.idx, Kind: "pullonly"}
+						}
+					}
+				}
+			}
 		}
 	}
 	x := r.Float()
